@@ -4,6 +4,7 @@ CONSTANTS
   Hints = {70000, 1232}
   Lens = {100, 5000}
   OptLens = {0, 11}
+  ROpts = {"none", "keepalive"}
   QLens = {17}
 SPECIFICATION Spec
 INVARIANT SomeTruncated
